@@ -302,6 +302,12 @@ func (c *compiler) compileType(y *Type, parent Leafable, isUnion bool) error {
 			return fmt.Errorf("%s - %s path does not lead to a leaf or leaf-list", SchemaPath(parent), y.ident)
 		} else {
 			y.delegate = hasType.Type()
+			// the target may be in an imported module, whose leaves are not compiled otherwise
+			if target, isLeafable := resolvedMeta.(Leafable); isLeafable && y.delegate != nil && int(y.delegate.format) == 0 {
+				if err := c.compileType(y.delegate, target, false); err != nil {
+					return err
+				}
+			}
 		}
 	} else {
 		y.delegate = y
